@@ -1,4 +1,442 @@
+//! mc-codec: bounded-exhaustive input enumeration for C13
+//! "Peer messages round-trip through the wire format and decoding is total".
+mod check;
+mod domain;
+mod gen;
+mod runner;
+mod tlv;
+mod types;
+
+use check::{Class, Ctx, Stats, Viol, CLASS_NAMES, ERR_NAMES, NCLASS};
+use mc_common::cli::{self, Tier};
+use mc_common::evidence::{Evidence, Level};
+use mc_common::findings::{self, Violation};
+use mc_common::{json, par, Value};
+use runner::{CaseOut, Cfg, TypeRunner};
+use std::collections::BTreeMap;
+use std::time::{Duration, Instant};
+
+const ID: &str = "C13";
+
+#[derive(Clone)]
+enum Work {
+	Case { t: usize, idx: usize, mutated: bool },
+	Short { t: usize },
+	/// Unknown type ids `ids`, every payload of length <= `maxlen`.
+	Unknown { ids: Vec<u16>, maxlen: usize },
+}
+
+fn cfg_for(tier: Tier, args: &cli::Args) -> (Cfg, usize) {
+	let thorough = tier.is_thorough();
+	let cap = args.opt_u64("cap_values").unwrap_or(if thorough { 30_000 } else { 1_500 }) as usize;
+	let cfg = Cfg {
+		thorough,
+		mutate_all: args.opt_u64("mutate_all").map(|v| v != 0).unwrap_or(false),
+		max_mutated_per_type: args.opt_u64("max_mutated").unwrap_or(if thorough { 400 } else { 20 }) as usize,
+		subst_all: args.opt_u64("subst_all").map(|v| v != 0).unwrap_or(thorough),
+		dense_limit: args.opt_u64("dense_limit").unwrap_or(if thorough { 2048 } else { 512 }) as usize,
+		sparse_offsets: args.opt_u64("sparse_offsets").unwrap_or(if thorough { 1024 } else { 256 }) as usize,
+		collect_digests: true,
+	};
+	(cfg, cap)
+}
+
+fn unknown_ids(known: &[u16]) -> (Vec<u16>, Vec<u16>) {
+	// every id below 1100 plus the region boundaries, minus the ids with a codec
+	let mut all: Vec<u16> = (0u16..1100).collect();
+	all.extend_from_slice(&[32767, 32768, 32769, 65534, 65535]);
+	all.retain(|i| !known.contains(i));
+	// ids that additionally get every 2-byte payload
+	let deep: Vec<u16> = [0u16, 3, 4, 5, 11, 40, 41, 267, 1000, 32768, 32769, 65534, 65535].iter().cloned().filter(|i| !known.contains(i)).collect();
+	(all, deep)
+}
+
+fn run_unknown(ids: &[u16], maxlen: usize, collect: bool) -> CaseOut {
+	let mut cx = Ctx::new("unknown-type", None, collect);
+	for id in ids {
+		let mut b = id.to_be_bytes().to_vec();
+		check::unknown_type_check(&mut cx, &b);
+		if maxlen >= 1 {
+			b.push(0);
+			for x in 0..=255u8 {
+				b[2] = x;
+				check::unknown_type_check(&mut cx, &b);
+			}
+		}
+		if maxlen >= 2 {
+			b.push(0);
+			for x in 0..=255u8 {
+				b[2] = x;
+				for y in 0..=255u8 {
+					b[3] = y;
+					check::unknown_type_check(&mut cx, &b);
+				}
+			}
+		}
+	}
+	CaseOut { stats: cx.stats, viols: cx.viols, sample: None, machinery_error: None }
+}
+
+fn run_too_short() -> CaseOut {
+	// inputs that do not even hold a type id
+	let mut cx = Ctx::new("unknown-type", None, false);
+	check::unknown_type_check(&mut cx, &[]);
+	for x in 0..=255u8 {
+		check::unknown_type_check(&mut cx, &[x]);
+	}
+	CaseOut { stats: cx.stats, viols: cx.viols, sample: None, machinery_error: None }
+}
+
+fn to_violation(v: &Viol, tier: Tier, cap: usize) -> Violation {
+	Violation {
+		property: ID.to_string(),
+		oracle: v.oracle.clone(),
+		identity: format!("{}|{}|{}", v.oracle, v.tname, check::short_hex(&v.input)),
+		detail: format!("[{}] {} (input {} bytes: {})", v.tname, v.detail, v.input.len(), check::short_hex(&v.input)),
+		replay: json!({
+			"type": v.tname,
+			"tier": tier.name(),
+			"cap_values": cap,
+			"value_index": v.vidx,
+			"check": v.check,
+			"input": mc_common::hex(&v.input),
+		}),
+	}
+}
+
+fn replay(path: &std::path::Path, args: &cli::Args) -> ! {
+	let text = std::fs::read_to_string(path).unwrap_or_else(|e| cli::die(&format!("cannot read {}: {}", path.display(), e)));
+	let doc: Value = mc_common::serde_json::from_str(&text).unwrap_or_else(|e| cli::die(&format!("replay file does not parse: {}", e)));
+	let rec = if doc.get("replay").is_some() { doc["replay"].clone() } else { doc.clone() };
+	let tname = rec["type"].as_str().unwrap_or_else(|| cli::die("replay: no type")).to_string();
+	let check = rec["check"].as_str().unwrap_or_else(|| cli::die("replay: no check")).to_string();
+	let input = mc_common::unhex(rec["input"].as_str().unwrap_or("")).unwrap_or_else(|| cli::die("replay: bad input hex"));
+	let vidx = rec["value_index"].as_u64().map(|v| v as usize);
+	let tier = if rec["tier"].as_str() == Some("thorough") { Tier::Thorough } else { Tier::Quick };
+	let (_, default_cap) = cfg_for(tier, args);
+	let cap = rec["cap_values"].as_u64().map(|c| c as usize).unwrap_or(default_cap);
+	par::set_quiet(false);
+	let out = if tname == "unknown-type" {
+		let mut cx = Ctx::new("unknown-type", None, false);
+		check::unknown_type_check(&mut cx, &input);
+		CaseOut { stats: cx.stats, viols: cx.viols, sample: None, machinery_error: None }
+	} else {
+		let table = types::all_types(cap);
+		let r = table.iter().find(|r| r.name() == tname).unwrap_or_else(|| cli::die(&format!("replay: unknown message type {}", tname)));
+		r.replay(&check, vidx, &input)
+	};
+	if out.viols.is_empty() {
+		println!("REPLAY property={} type={} check={} input={} : no violation", ID, tname, check, check::short_hex(&input));
+		std::process::exit(0);
+	}
+	for v in &out.viols {
+		println!("REPLAY-VIOLATION property={} oracle={} type={} : {}", ID, v.oracle, v.tname, v.detail);
+	}
+	println!("VIOLATION property={} replay={}", ID, path.display());
+	std::process::exit(1);
+}
+
 fn main() {
-	let _args = mc_common::cli::parse();
-	mc_common::cli::die("engine not built yet");
+	let args = cli::parse();
+	if let Some(p) = args.replay.clone() {
+		replay(&p, &args);
+	}
+	if args.property != ID {
+		cli::die(&format!("mc-codec implements {} only (got {:?})", ID, args.property));
+	}
+	par::install_quiet_panic_hook();
+	if !check::overread_detector_works() {
+		cli::die("over-read detector self-check failed");
+	}
+	let start = Instant::now();
+	let tier = args.tier;
+	let (cfg, cap) = cfg_for(tier, &args);
+	let wall_cap = if args.wall_cap_s > 0 { args.wall_cap_s } else if tier.is_thorough() { 2400 } else { 55 };
+	let deadline = start + Duration::from_secs(wall_cap);
+
+	let table: Vec<Box<dyn TypeRunner>> = types::all_types(cap);
+	let only: Option<Vec<String>> = args.opt("types").map(|s| s.split(',').map(|x| x.to_string()).collect());
+	let gen_s = start.elapsed().as_secs_f64();
+
+	// ---- work list ----
+	let mut work: Vec<(u64, Work)> = Vec::new(); // (cost estimate, item)
+	let mut mutated_sets: Vec<Vec<usize>> = Vec::new();
+	for (t, r) in table.iter().enumerate() {
+		let skip = only.as_ref().map(|o| !o.iter().any(|n| n == r.name())).unwrap_or(false);
+		let ms: Vec<usize> = if skip { vec![] } else { r.mutated_indices(&cfg) };
+		if !skip {
+			for idx in 0..r.n_values() {
+				let mutated = ms.binary_search(&idx).is_ok();
+				let len = r.encoded_len(idx) as u64 + 1;
+				let cost = if mutated { len * if cfg.subst_all { 300 } else { 12 } * (1 + len / 200) } else { len / 64 + 1 };
+				work.push((cost, Work::Case { t, idx, mutated }));
+			}
+			work.push((70_000, Work::Short { t }));
+		}
+		mutated_sets.push(ms);
+	}
+	let known_ids: Vec<u16> = table.iter().map(|r| r.type_id()).collect();
+	let (all_unknown, deep_unknown) = unknown_ids(&known_ids);
+	if only.is_none() {
+		for chunk in all_unknown.chunks(64) {
+			work.push((chunk.len() as u64 * 257, Work::Unknown { ids: chunk.to_vec(), maxlen: 1 }));
+		}
+		for id in &deep_unknown {
+			work.push((66_000, Work::Unknown { ids: vec![*id], maxlen: 2 }));
+		}
+	}
+	// Heaviest first (deterministic: cost is a function of the generated values only); results are
+	// re-ordered by their position in the table afterwards.
+	let mut order: Vec<usize> = (0..work.len()).collect();
+	order.sort_by(|a, b| work[*b].0.cmp(&work[*a].0).then(a.cmp(b)));
+	let items: Vec<(usize, Work)> = order.iter().map(|i| (*i, work[*i].1.clone())).collect();
+
+	// ---- run ----
+	let collect = cfg.collect_digests;
+	let results = par::map(&items, args.threads, |_, (_, w)| -> Option<CaseOut> {
+		if Instant::now() >= deadline {
+			return None;
+		}
+		Some(match w {
+			Work::Case { t, idx, mutated } => table[*t].run_case(*idx, *mutated, &cfg),
+			Work::Short { t } => table[*t].run_short(&cfg),
+			Work::Unknown { ids, maxlen } => run_unknown(ids, *maxlen, collect),
+		})
+	});
+	let too_short = run_too_short();
+
+	// ---- collect (in table order) ----
+	let mut by_pos: Vec<Option<Result<Option<CaseOut>, String>>> = (0..work.len()).map(|_| None).collect();
+	for ((pos, _), r) in items.iter().zip(results.into_iter()) {
+		by_pos[*pos] = Some(r);
+	}
+	let mut per_type: Vec<Stats> = table.iter().map(|_| Stats::default()).collect();
+	let mut unknown_stats = too_short.stats.clone();
+	let mut viols: Vec<Viol> = too_short.viols.clone();
+	let mut skipped = 0u64;
+	let mut digests: Vec<u64> = Vec::new();
+	let mut samples: Vec<Value> = Vec::new();
+	let mut machinery: Vec<String> = Vec::new();
+	for (pos, r) in by_pos.into_iter().enumerate() {
+		let w = &work[pos].1;
+		match r.expect("every work item has a result") {
+			Ok(None) => skipped += 1,
+			Ok(Some(mut out)) => {
+				if let Some(e) = out.machinery_error.take() {
+					machinery.push(e);
+				}
+				digests.append(&mut out.stats.ok_digests);
+				match w {
+					Work::Case { t, .. } | Work::Short { t } => per_type[*t].merge(&out.stats),
+					Work::Unknown { .. } => unknown_stats.merge(&out.stats),
+				}
+				viols.extend(out.viols);
+				if let Some(s) = out.sample {
+					// a few samples per type: first values and the first with the malformed suite
+					if let Work::Case { idx, mutated, .. } = w {
+						if *idx < 1 || (*mutated && samples.len() < 200 && *idx % 97 == 1) {
+							samples.push(s);
+						}
+					}
+				}
+			},
+			Err(p) => {
+				// a panic that escaped the per-input guards
+				let (tname, vidx) = match w {
+					Work::Case { t, idx, .. } => (table[*t].name().to_string(), Some(*idx)),
+					Work::Short { t } => (table[*t].name().to_string(), None),
+					Work::Unknown { .. } => ("unknown-type".to_string(), None),
+				};
+				viols.push(Viol { oracle: "no-panic".into(), tname, vidx, check: "value".into(), input: vec![], detail: format!("panic outside the per-input guards: {}", p) });
+			},
+		}
+	}
+	if !machinery.is_empty() {
+		cli::die(&format!("{} generator errors, first: {}", machinery.len(), machinery[0]));
+	}
+	let capped = skipped > 0;
+	digests.sort_unstable();
+	digests.dedup();
+
+	// ---- evidence ----
+	let mut ev = Evidence::new(ID, tier, args.seed, Level::Exploration);
+	let mut total = Stats::default();
+	for s in &per_type {
+		total.merge(s);
+	}
+	total.merge(&unknown_stats);
+	ev.set("evaluations", total.evaluations());
+	ev.set("distinct_nontrivial", digests.len() as u64);
+	ev.set(
+		"rule",
+		"distinct (message type, input bytes) pairs that decoded successfully, over every evaluated input: constructed encodings, all their prefixes, single-byte substitutions, extensions, TLV probes, all strings of length <= 2 per type id (64-bit digests, sorted and de-duplicated)",
+	);
+	ev.set("exhaustive", !capped && only.is_none());
+	ev.set("capped", capped);
+	ev.set("work_items", work.len() as u64);
+	ev.set("work_items_skipped_by_wall_cap", skipped);
+	ev.set("decode_ok", total.decode_ok());
+	ev.set("decode_err", total.evaluations() - total.decode_ok());
+	ev.set("message_types", table.len() as u64);
+	ev.set("generated_values", total.values);
+	ev.set("values_with_malformed_suite", total.values_mutated);
+	ev.set("large_values_over_16KiB", total.large_values);
+	ev.set("mutated_ok_to_different_message", total.changed_ok);
+	ev.set("accepted_noncanonical_inputs", total.noncanonical_ok);
+	ev.set("tlv_records_in_generated_encodings", total.tlv_records_seen);
+	ev.set("wire_unknown_odd_ignored", unknown_stats.wire_unknown_odd);
+	ev.set("wire_unknown_even_flagged", unknown_stats.wire_unknown_even);
+	ev.set("unknown_type_ids", all_unknown.len() as u64);
+	ev.set("unknown_type_ids_with_all_2_byte_payloads", deep_unknown.len() as u64);
+	ev.set("reads_reaching_exactly_the_declared_length", total.max_consumed_eq_limit);
+	ev.set("raw_violation_count", total.violations);
+	let mut by_class = serde_map();
+	for i in 0..NCLASS {
+		by_class.insert(CLASS_NAMES[i].to_string(), json!({"ok": total.ok[i], "err": total.err[i]}));
+	}
+	ev.set("by_input_class", Value::Object(by_class));
+	let mut by_err = serde_map();
+	for i in 0..8 {
+		by_err.insert(ERR_NAMES[i].to_string(), json!(total.errs[i]));
+	}
+	ev.set("decode_errors_by_variant", Value::Object(by_err));
+	let mut types_json = serde_map();
+	let mut full_products: Vec<&str> = Vec::new();
+	let mut covers: Vec<&str> = Vec::new();
+	for (t, r) in table.iter().enumerate() {
+		let s = &per_type[t];
+		let mut info = r.info();
+		if info["full_product"].as_bool() == Some(true) {
+			full_products.push(r.name());
+		} else {
+			covers.push(r.name());
+		}
+		let o = info.as_object_mut().unwrap();
+		o.insert("evaluations".into(), json!(s.evaluations()));
+		o.insert("decode_ok".into(), json!(s.decode_ok()));
+		o.insert("values_with_malformed_suite".into(), json!(s.values_mutated));
+		o.insert("large_values".into(), json!(s.large_values));
+		o.insert("truncation_ok".into(), json!(s.ok[Class::Trunc as usize]));
+		o.insert("truncation_err".into(), json!(s.err[Class::Trunc as usize]));
+		o.insert("substitution_ok".into(), json!(s.ok[Class::Subst as usize]));
+		o.insert("substitution_err".into(), json!(s.err[Class::Subst as usize]));
+		o.insert("tlv_odd_ignored".into(), json!(s.ok[Class::TlvOdd as usize]));
+		o.insert("tlv_even_rejected".into(), json!(s.err[Class::TlvEven as usize]));
+		o.insert("nonminimal_rejected".into(), json!(s.err[Class::NonMin as usize]));
+		o.insert("out_of_range_rejected".into(), json!(s.err[Class::Reject as usize]));
+		o.insert("short_strings_ok".into(), json!(s.ok[Class::Short as usize]));
+		types_json.insert(r.name().to_string(), info);
+	}
+	ev.set("per_type", Value::Object(types_json));
+	ev.set("types_enumerated_as_full_product", json!(full_products));
+	ev.set("types_enumerated_as_structural_cover", json!(covers));
+	ev.set(
+		"bounds",
+		json!({
+			"cap_values_per_type_before_cover": cap,
+			"max_values_with_malformed_suite_per_type": cfg.max_mutated_per_type,
+			"substitutions_per_offset": if cfg.subst_all { "all 255 other values + 0xffff pair" } else { "8 single-bit flips + 0xffff pair" },
+			"all_offsets_up_to_len": cfg.dense_limit,
+			"offsets_for_longer_encodings": cfg.sparse_offsets,
+			"truncations": "every prefix of every encoding that gets the malformed suite",
+			"extensions": if cfg.thorough { "all 256 one-byte, 64 + 1240 two-byte" } else { "all 256 one-byte, 64 two-byte" },
+			"short_strings": "all byte strings of length <= 2 after every known type id (codec and dispatch) and after 13 unknown ids; all of length <= 1 after every other id below 1100 and the region boundaries",
+			"wall_cap_s": wall_cap,
+		}),
+	);
+	ev.set("generation_s", (gen_s * 1000.0).round() / 1000.0);
+	ev.assume("secp256k1 point / signature parsing and rust-bitcoin consensus (de)serialisation of Transaction / Witness are trusted components behind the codecs");
+	ev.assume("the domain of 'messages the library can construct' is restricted to messages that fit BOLT-1's 65535 bytes, ChannelUpdate.message_flags with the must_be_one bit set, blinded paths with 1..=255 hops, excess_address_data that starts with an unknown address type (what the library itself produces)");
+	ev.assume("an unknown even message type is turned into an error by PeerManager (peer_handler.rs, `Message::Unknown(_) if message.is_even()` => disconnect); this engine checks that wire::read classifies it as unknown-and-even, the disconnect itself is exercised by C15");
+	ev.assume("lightning is built without --cfg simple_close: closing_complete / closing_sig have codecs (checked) but no dispatch arm (checked to come out as unknown even types 40 / 41)");
+	ev.assume("hook H2 (wire::verif_wire_roundtrip, feature _verif_hooks) is a faithful wrapper of wire::read + Message::type_id/write");
+	for s in samples.into_iter().take(40) {
+		ev.sample(s, 40);
+	}
+
+	// ---- vacuity guards ----
+	if only.is_none() && !capped && total.violations == 0 {
+		let mut problems: Vec<String> = Vec::new();
+		for (t, r) in table.iter().enumerate() {
+			let s = &per_type[t];
+			if r.n_values() == 0 || s.ok[Class::Valid as usize] < 2 * r.n_values() as u64 {
+				problems.push(format!("{}: not every generated value decoded (valid ok {} for {} values)", r.name(), s.ok[Class::Valid as usize], r.n_values()));
+			}
+			if s.values_mutated == 0 {
+				problems.push(format!("{}: no value got the malformed-input suite", r.name()));
+			}
+			if s.err[Class::Trunc as usize] == 0 {
+				problems.push(format!("{}: no truncation was rejected", r.name()));
+			}
+			if s.ok[Class::Subst as usize] == 0 || s.err[Class::Subst as usize] == 0 {
+				problems.push(format!("{}: substitutions never {}", r.name(), if s.ok[Class::Subst as usize] == 0 { "decoded" } else { "failed" }));
+			}
+			if r.has_tlv() && (s.ok[Class::TlvOdd as usize] == 0 || s.err[Class::TlvEven as usize] == 0 || s.err[Class::NonMin as usize] == 0) {
+				problems.push(format!("{}: TLV probes vacuous (odd ok {}, even err {}, non-minimal err {})", r.name(), s.ok[Class::TlvOdd as usize], s.err[Class::TlvEven as usize], s.err[Class::NonMin as usize]));
+			}
+			if r.n_rejects() > 0 && s.err[Class::Reject as usize] == 0 {
+				problems.push(format!("{}: no out-of-range probe applied", r.name()));
+			}
+			if r.dispatched() && s.ok[Class::Wire as usize] == 0 {
+				problems.push(format!("{}: never decoded through wire::read", r.name()));
+			}
+		}
+		if total.changed_ok == 0 {
+			problems.push("no mutated input decoded to a different message".into());
+		}
+		if total.ok[Class::Trunc as usize] == 0 {
+			problems.push("no truncation decoded successfully (optional trailing fields never exercised)".into());
+		}
+		if total.ok[Class::Short as usize] == 0 {
+			problems.push("no short string decoded successfully".into());
+		}
+		if total.errs[1] == 0 || total.errs[2] == 0 || total.errs[3] == 0 || total.errs[4] == 0 || total.errs[0] == 0 || total.errs[6] == 0 {
+			problems.push(format!("a DecodeError variant was never produced: {:?}", total.errs));
+		}
+		if unknown_stats.wire_unknown_odd == 0 || unknown_stats.wire_unknown_even == 0 {
+			problems.push("unknown odd / even type ids never observed through wire::read".into());
+		}
+		if total.tlv_records_seen == 0 || total.max_consumed_eq_limit == 0 || total.large_values == 0 {
+			problems.push("no TLV record / no full-length read / no large value generated".into());
+		}
+		if !problems.is_empty() {
+			cli::die(&format!("vacuity guard: {}", problems.join("; ")));
+		}
+	}
+
+	// ---- violations ----
+	// keep the first few per (oracle, type) in table order
+	let mut kept: Vec<Violation> = Vec::new();
+	let mut per_key: BTreeMap<(String, String), usize> = BTreeMap::new();
+	for v in &viols {
+		let k = (v.oracle.clone(), v.tname.clone());
+		let c = per_key.entry(k).or_insert(0);
+		*c += 1;
+		if *c <= 2 && kept.len() < 400 {
+			kept.push(to_violation(v, tier, cap));
+		}
+	}
+	let mut oracle_counts = serde_map();
+	for ((o, t), c) in &per_key {
+		oracle_counts.insert(format!("{}|{}", o, t), json!(*c));
+	}
+	ev.set("violations_by_oracle_and_type", Value::Object(oracle_counts));
+	eprintln!(
+		"C13 {}: {} types, {} values ({} with malformed suite), {} evaluations, {} ok, {} distinct ok, {} violations, capped={} in {:.1}s",
+		tier.name(),
+		table.len(),
+		total.values,
+		total.values_mutated,
+		total.evaluations(),
+		total.decode_ok(),
+		digests.len(),
+		viols.len(),
+		capped,
+		start.elapsed().as_secs_f64()
+	);
+	std::process::exit(findings::conclude(ID, &kept, &mut ev));
+}
+
+fn serde_map() -> mc_common::serde_json::Map<String, Value> {
+	mc_common::serde_json::Map::new()
 }
